@@ -9,7 +9,7 @@ from . import model as M
 
 FLOATS = [1.0, -1.5, 2.0, 2.5, 3.0, 0.5, -2.0, 4.0, 10.0, 0.0, 0.3, 0.7]
 PARAM_KEYS = ["factor", "addend", "divisor", "value", "w", "p", "q", "path", "seed", "k", "tag", "n", "label", "flag"]
-OTHER_KEYS = ["a", "b", "c", "k1", "out", "t_values", "w_key", "ps_a", "seq", "long_key", "x.y", "x_y"]  # x.y / x_y: distinct keys, one identifier
+OTHER_KEYS = ["a", "b", "c", "k1", "K1", "out", "t_values", "w_key", "ps_a", "seq", "long_key", "x.y", "x_y"]  # k1 / K1: equal ignoring case  # x.y / x_y: distinct keys, one identifier
 ALL_KEYS = PARAM_KEYS + OTHER_KEYS
 PATHS = ["out_a.txt", "out_b.txt"]
 
@@ -65,7 +65,7 @@ SWEEPABLE = {"source": ["FloatValueDataSource", "FloatValueDataSourceWithDefault
                            "FloatDivideOperation", "VCtxWriteOp"],
              "probe": ["VEchoProbe"]}
 
-EXPRS1 = ["{v}", "2 * {v}", "{v} + 1.0", "-{v}", "abs({v}) + 0.5", "{v} * {v}", "max({v}, 1.0)", "{v} / 2", "float({v})",
+EXPRS1 = ["5.0", "min(5.0, 7.0)", "{v}", "2 * {v}", "{v} + 1.0", "-{v}", "abs({v}) + 0.5", "{v} * {v}", "max({v}, 1.0)", "{v} / 2", "float({v})",
           "{v} + (0.1 + 0.2)", "({v} + 0.1) + 0.2", "0.1 + ({v} + 0.2)", "({v} * 0.1) * 3.0", "{v} * (0.1 * 3.0)",
           # + / * chains inside call arguments, comparisons and conditional branches
           "max({v} + 0.5, 1.0)", "abs(0.5 + {v} * 2.0)", "min(1.0 + {v}, {v} * 2.0)", "{v} if 0.5 + {v} > 1.0 else 2.0 * {v}"]
@@ -77,7 +77,7 @@ EXPRS2 = ["{v} + {u}", "{v} * {u}", "{v} - {u}", "{u} * 2 + {v}", "min({v}, {u})
 
 
 # expressions whose meaning hinges on operand order / chain structure (targets of the semantic mutation operators)
-EXPRS2_SEMANTIC = ["{v} if {v} == {u} != 1.0 else {u}", "{v} if 0.5 < {v} <= {u} else {u} - {v}", "({v} - {u}) / 2.0", "{v} ** 2 - {u}",
+EXPRS2_SEMANTIC = ["{v} and {u}", "({v} or {u}) * 2.0", "round({v} * {u}, ndigits=int({v} + 1.0 + {u}))", "{v} if {v} == {u} != 1.0 else {u}", "{v} if 0.5 < {v} <= {u} else {u} - {v}", "({v} - {u}) / 2.0", "{v} ** 2 - {u}",
                    "float({v} != {u} == 2.0)", "min({u} * {v}, {v} + {u})", "max({v} - 1.0, {u}) - {v}", "{u} if {v} < {u} < 3.0 else {v}"]
 
 
@@ -112,7 +112,9 @@ def sweep_spec(draw, wrapped: str, rich: bool = False):
     base = M.LIB[wrapped]
     nvars = draw(st.sampled_from([1, 1, 2, 2, 3] if rich else [1, 1, 2]))
     names = list(draw(st.permutations(["t", "s", "r"]))[:nvars])
-    if rich:  # user-chosen names that coincide with keys the framework uses inside its own metadata blocks
+    if rich and nvars >= 2 and draw(st.sampled_from([False] * 4 + [True])):
+        names[0], names[1] = "t10", "t9"  # digit runs of different length: plain string order and 'natural' order disagree
+    elif rich:  # user-chosen names that coincide with keys the framework uses inside its own metadata blocks
         # ... or with a parameter of the wrapped processor (which the sweep may or may not compute)
         odd = draw(st.sampled_from([None] * 6 + ["expr", "preprocessor_view", "sig", "values", "max", "abs", "float"] +
                                    [n for n, _ in base["params"] if n not in ("marker", "kind", "opts")] * 2))
@@ -210,6 +212,10 @@ def node(draw, kind: str, known: List[str], sweeps: bool = True, rare: bool = Tr
     elif what == "sweep_probe":
         n["p"] = draw(st.sampled_from(SWEEPABLE["probe"]))
         n["sweep"] = draw(sweep_spec(n["p"], rich_sweeps))
+    if n.get("sweep") and rich_sweeps and n["sweep"].get("params") and draw(st.sampled_from([False, False, True])):
+        # a parameter the sweep computes is ALSO given in the node's parameters: the computed value has precedence
+        pn = draw(st.sampled_from(sorted(n["sweep"]["params"])))
+        n.setdefault("params", {})[pn] = draw(st.sampled_from([1001.0, 7.5]))
     desc = M.describe(dict(n, context_key="x"))
     if desc["kind"] == "probe":
         if n["p"] == "CopyDataProbe":
